@@ -196,6 +196,8 @@ pub fn run(cases_path: &str, out_path: &str) -> i32 {
                 "batch_first" => json!([target_call, read_a, read_b]).to_string(),
                 "batch_mid" => json!([read_a, target_call, read_b]).to_string(),
                 "batch_last" => json!([read_a, read_b, target_call]).to_string(),
+                "batch_after_invalid" => json!([1, {"foo": "bar"}, read_a, target_call, read_b]).to_string(),
+                "batch_before_invalid" => json!([read_a, target_call, {"foo": "bar"}, 1, read_b]).to_string(),
                 _ => json!([read_a, target_note, read_b]).to_string(),
             };
             let resp = http::post(port, &body, hv.as_deref());
